@@ -252,6 +252,27 @@ class FastAioEndpoint(_ChronMixin, _world.AioEndpoint):
             self._lose_with(e)
         self._settle()
 
+    def feed_burst(self, chunks):
+        """copy of ``AioEndpoint.feed_burst`` (vf/world.py) with the early-exit settle: every chunk is handed to
+        ``data_received()`` back to back inside ONE read event, the loop runs only afterwards (the adapter's consumer
+        callback finds several chunks queued).  Returns the number of chunks handed over."""
+        n = 0
+        for data in chunks:
+            if self.lost or self.close_requested is not None:
+                break
+            if not data:
+                continue
+            self.log("feed", len(data))
+            try:
+                self.proto.data_received(bytes(data))
+                n += 1
+            except Exception as e:
+                self._escaped("data_received", e)
+                self._lose_with(e)
+                break
+        self._settle()
+        return n
+
 
 _ADDRS = None
 
